@@ -63,7 +63,7 @@ def piBytesLe : Bytes → Bytes → Bool
 def uniqueStrings (l : List Bytes) : List Bytes := (l.mergeSort piBytesLe).eraseDups
 
 /-- `StateNeededForProtoEvent(&proto)`: `none` = error.  `content` is the parsed `proto.Content`
-    (`none` = empty or not JSON). -/
+    (`none` = empty or not JSON).  The members of an object are matched by their exact names (`exactMembersOnly`). -/
 def protoNeeded (type sender : Bytes) (stateKey : Option Bytes) (content : Option JVal) : Option StateRes.Needed :=
   if type == b!"m.room.create" then some {}
   else if type == b!"m.room.aliases" then some { create := true }
@@ -72,10 +72,10 @@ def protoNeeded (type sender : Bytes) (stateKey : Option Bytes) (content : Optio
     | none => none                 -- json.Unmarshal fails
     | some .null => none           -- the content pointer stays nil: "missing memberContent"
     | some (.obj kvs) =>
-      let m := decString (lookupField kvs b!"membership")
-      let tp := Auth.decodeThirdParty (lookupField kvs b!"third_party_invite")
-      let av := decString (lookupField kvs b!"join_authorised_via_users_server")
-      let mm := (Auth.decodeMxidMapping (lookupField kvs b!"mxid_mapping")).1
+      let m := decString (lookupExact kvs b!"membership")
+      let tp := Auth.decodeThirdParty (lookupExact kvs b!"third_party_invite")
+      let av := decString (lookupExact kvs b!"join_authorised_via_users_server")
+      let mm := (Auth.decodeMxidMapping (lookupExact kvs b!"mxid_mapping")).1
       if m.err || tp.err || av.err || mm.err then none
       else
         let base : List Bytes := [sender] ++ (match stateKey with | some k => [k] | none => [])
